@@ -322,6 +322,7 @@ Definition timer_add (p : prio) (dur key reg : Z) st : Z * state :=
 (* _timer_from_handle_ *)
 Definition timer_from_handle (h : Z) st : option (nat * tslot) :=
   if h =? 0 then None else
+  if h / TWO32 =? 0 then None else   (* a zero check half is never handed out; it marks unused and dispatching slots *)
   let pos := Z.to_nat (h mod TWO32) in
   match nth_error (timers st) pos with
   | None => None
